@@ -784,35 +784,44 @@ Proof. vm_compute. repeat split; reflexivity. Qed.
    utility array changes only where a slot is newly filled (then the list is re-sorted) or at the gene
    just chosen; the already-chosen members have negative utility, an unfinished loop has a member of
    positive utility, so the last member is unchosen and maximal. *)
+(* DOMAIN (audit 4, A5 ii).  The proof needs neither `no_gene_both_ways marks` nor `pairs <> []`
+   (SelectionPickKP.numpy_rule_is_legal has neither); they are hypotheses here because outside them the
+   model does not speak for the code: the real _run_selection raises where the model ends in `break`
+   (ex_excluded_both_ways: AssertionError in the desperate phase; ex_excluded_no_pairs: ValueError
+   in _stats_from_marker_counts).  Real inputs satisfy both: the reference-marker writer lists a gene
+   in one direction only (ex_hypothesis, both_ways_free on every generated table) and select_parent(_k)
+   never calls _run_selection with an empty taxonomy_idx_array (c12_parent_run_has_pairs(_batch)). *)
 Theorem c12_numpy_rule_is_legal : forall n_genes pairs marks n sorter,
-  is_argsort sorter ->
+  is_argsort sorter -> no_gene_both_ways marks -> pairs <> [] ->
   exists st', select_with n_genes pairs marks n (pick_pop sorter) = WDone st'.
-Proof. exact numpy_rule_is_legal. Qed.
+Proof. exact numpy_rule_is_legal_dom. Qed.
 Print Assumptions c12_numpy_rule_is_legal.
 
 (* ... hence, with c12_select_with_is_legal_run and c12_spec_holds (c12_coverage): what the code selects
    with numpy's rule satisfies C12's executable statement *)
 Theorem c12_numpy_rule_meets_spec : forall n_genes pairs marks n sorter,
-  is_argsort sorter -> no_gene_both_ways marks ->
+  is_argsort sorter -> no_gene_both_ways marks -> pairs <> [] ->
   exists st', select_with n_genes pairs marks n (pick_pop sorter) = WDone st' /\
               spec_c12 n_genes pairs marks n (chosen st') = true.
-Proof. exact numpy_rule_meets_spec. Qed.
+Proof. exact numpy_rule_meets_spec_dom. Qed.
 Print Assumptions c12_numpy_rule_meets_spec.
 
 (* the same for every genes_at_a_time = k >= 1: each of the up-to-k pops of a batch is pop(-1) of the
    same list (nothing is recomputed inside a batch); never IndexError, never "chose gene twice", never
-   out of fuel *)
+   out of fuel - ON THE DOMAIN above (a gene both ways: AssertionError; no pair: ValueError) and for
+   k >= 1 (genes_at_a_time = 0 passes the schema and makes the real `while True` spin for ever: the
+   model's WKOutOfFuel, ex_excluded_k0; observed, not generated, by harness/props/c12_batch.py) *)
 Theorem c12_numpy_rule_is_legal_batch : forall n_genes pairs marks n sorter k,
-  is_argsort sorter -> 1 <= k ->
+  is_argsort sorter -> 1 <= k -> no_gene_both_ways marks -> pairs <> [] ->
   exists st', select_with_k n_genes pairs marks n k (pick_pop sorter) = WKDone st'.
-Proof. intros n_genes pairs marks n sorter k Hs. exact (numpy_rule_is_legal_k n_genes pairs marks n sorter Hs k). Qed.
+Proof. exact numpy_rule_is_legal_k_dom. Qed.
 Print Assumptions c12_numpy_rule_is_legal_batch.
 
 Theorem c12_numpy_rule_meets_spec_batch : forall n_genes pairs marks n sorter k,
-  is_argsort sorter -> 1 <= k -> no_gene_both_ways marks ->
+  is_argsort sorter -> 1 <= k -> no_gene_both_ways marks -> pairs <> [] ->
   exists st', select_with_k n_genes pairs marks n k (pick_pop sorter) = WKDone st' /\
               spec_c12 n_genes pairs marks n (chosen st') = true.
-Proof. intros n_genes pairs marks n sorter k Hs. exact (numpy_rule_meets_spec_k n_genes pairs marks n sorter Hs k). Qed.
+Proof. exact numpy_rule_meets_spec_k_dom. Qed.
 Print Assumptions c12_numpy_rule_meets_spec_batch.
 
 (* the hypothesis is satisfiable: a stable insertion argsort is an argsort (so is, by the tie, the
@@ -915,6 +924,89 @@ Theorem c12_rule_selected_names_are_query_markers : forall rm query t parent bh 
 Proof. exact rule_selected_names_are_query_markers. Qed.
 Print Assumptions c12_rule_selected_names_are_query_markers.
 
+(* ---------------- audit 4, A5 (i): legality COMPOSED with order and threshold ----------------
+   c12_batch_pair_order_irrelevant / c12_batch_threshold_irrelevant alone would be satisfied by two runs
+   that both end WKIllegal g.  For numpy's own rule they do not: both runs end in `break`. *)
+Theorem c12_numpy_pair_order_composed : forall n_genes marks n k pairs pairs' sorter,
+  is_argsort sorter -> 1 <= k -> no_gene_both_ways marks -> pairs <> [] ->
+  Permutation pairs pairs' ->
+  exists st st',
+    select_with_k n_genes pairs marks n k (pick_pop sorter) = WKDone st /\
+    select_with_k n_genes pairs' marks n k (pick_pop sorter) = WKDone st' /\
+    (exists popped, chosen st = chosen (start n_genes pairs marks n) ++ popped /\
+                    chosen st' = chosen (start n_genes pairs' marks n) ++ popped) /\
+    Permutation (chosen (start n_genes pairs marks n)) (chosen (start n_genes pairs' marks n)) /\
+    Permutation (chosen st) (chosen st') /\
+    (forall s, counts st s = counts st' s) /\ (forall s, filled st s = filled st' s) /\
+    (forall g, utility st g = utility st' g).
+Proof. exact numpy_pair_order_composed. Qed.
+Print Assumptions c12_numpy_pair_order_composed.
+
+(* the same at the level of the pipeline's per-parent entry, behemoth (global pair numbers) against the
+   downsampled table (local numbers): both short-circuit (exactly when the parent has no pair), or both
+   are refused alike, or BOTH calls of _run_selection end in `break` with selections that are
+   permutations of each other, the same popped genes in the same order, the same utility array *)
+Theorem c12_numpy_threshold_composed : forall k sorter rm query t parent n,
+  is_argsort sorter -> 1 <= k -> NoDup (leaf_pairs t parent) ->
+  no_gene_both_ways (marks_of (pair_tables (thin_genes rm query))) ->
+  match select_parent_k k (pick_pop sorter) rm query t parent true n,
+        select_parent_k k (pick_pop sorter) rm query t parent false n with
+  | PKSkip, PKSkip => leaf_pairs t parent = []
+  | PKErrOverlap, PKErrOverlap => True
+  | PKErrPair, PKErrPair => True
+  | PKRun ng w, PKRun ng' w' =>
+      ng = ng' /\ ng = length (rm_genes (thin_genes rm query)) /\
+      exists st st', w = WKDone st /\ w' = WKDone st' /\
+        Permutation (chosen st) (chosen st') /\ (forall g, utility st g = utility st' g) /\
+        exists arr idxB idxD,
+          downsample_pairs (thin_genes rm query) (leaf_pairs t parent) = Some arr /\
+          parent_idx (thin_genes rm query) t parent true = Some idxB /\ idxB <> [] /\
+          parent_idx arr t parent true = Some idxD /\ idxD <> [] /\
+          Permutation (chosen (start ng idxB (marks_of (pair_tables (thin_genes rm query))) n))
+                      (chosen (start ng idxD (marks_of (pair_tables arr)) n)) /\
+          exists popped,
+            chosen st = chosen (start ng idxB (marks_of (pair_tables (thin_genes rm query))) n) ++ popped /\
+            chosen st' = chosen (start ng idxD (marks_of (pair_tables arr)) n) ++ popped
+  | _, _ => False
+  end.
+Proof. exact numpy_threshold_composed. Qed.
+Print Assumptions c12_numpy_threshold_composed.
+
+(* the four statements about the per-parent entry (c12_parent_short_circuit, c12_parent_run_has_pairs,
+   c12_empty_overlap_refused, c12_overlap_needed) for every genes_at_a_time.  Like their k = 1
+   originals the first, third and fourth are by construction of select_parent_k (it copies the three
+   early exits of select_all_markers / select_marker_genes_v2; the content is in the tie, tag 1266);
+   the second has content: whenever _run_selection is called, taxonomy_idx_array is NON-EMPTY and in
+   range - the `pairs <> []` of the theorems above is met by every call the pipeline makes *)
+Theorem c12_parent_short_circuit_batch : forall k pick rm query t parent bh n,
+  keep_idx rm query <> [] -> leaf_pairs t parent = [] ->
+  select_parent_k k pick rm query t parent bh n = PKSkip.
+Proof. exact parent_short_circuit_k. Qed.
+Print Assumptions c12_parent_short_circuit_batch.
+
+Theorem c12_parent_run_has_pairs_batch : forall k pick rm query t parent bh n ng r,
+  select_parent_k k pick rm query t parent bh n = PKRun ng r ->
+  exists arr idx, idx <> [] /\ Forall (fun i => i < length (rm_pairs arr)) idx /\
+    parent_idx arr t parent true = Some idx /\ ng = length (rm_genes arr) /\
+    rm_genes arr = rm_genes (thin_genes rm query) /\
+    (if bh then Some (thin_genes rm query)
+     else downsample_pairs (thin_genes rm query) (leaf_pairs t parent)) = Some arr /\
+    r = select_with_k ng idx (marks_of (pair_tables arr)) n k pick.
+Proof. exact parent_run_has_pairs_k. Qed.
+Print Assumptions c12_parent_run_has_pairs_batch.
+
+Theorem c12_empty_overlap_refused_batch : forall k pick rm query t parent bh n,
+  (forall g, In g (rm_genes rm) -> ~ In g query) ->
+  select_parent_k k pick rm query t parent bh n = PKErrOverlap.
+Proof. exact empty_overlap_refused_k. Qed.
+Print Assumptions c12_empty_overlap_refused_batch.
+
+Theorem c12_overlap_needed_batch : forall k pick rm query t parent bh n,
+  select_parent_k k pick rm query t parent bh n <> PKErrOverlap ->
+  exists g, In g (rm_genes rm) /\ In g query.
+Proof. exact overlap_needed_k. Qed.
+Print Assumptions c12_overlap_needed_batch.
+
 (* ---------------- non-vacuity of the block ---------------- *)
 (* the insertion argsort on the audit's first array; on the audit's table it completes - with the genes of
    numpy's list [4;1;0;6;2;3] (ex_python_is_not_first_max) in ANOTHER order (ties), both legal; k = 2
@@ -943,4 +1035,56 @@ Example ex_select_parent_k :
    | PKRun ng (WKDone st) => Some (ng, chosen st) | _ => None end) = Some (5, [0; 4; 3]) /\
   select_parent_k 2 (pick_pop ins_argsort) ex_rm ex_query ex_tree (Some (0, 11%Z)) true 1 = PKSkip.
 Proof. vm_compute. repeat split; reflexivity. Qed.
+(* ---------------- audit 4, A5: the hypotheses are met / the excluded inputs are where Python raises ---------------- *)
+(* the hypotheses of c12_numpy_pair_order_composed on the audit's table (its conclusion on these very
+   values: third clause of ex_numpy_rule_legal) *)
+Example ex_composed_hypotheses :
+  is_argsort ins_argsort /\ no_gene_both_ways (marks_of ex_audit_pd) /\ [0; 1; 2; 3] <> [] /\
+  Permutation [0; 1; 2; 3] [3; 1; 0; 2].
+Proof.
+  split; [exact ins_argsort_is_argsort|]. split; [apply both_ways_free_sound; reflexivity|].
+  split; [discriminate|].
+  apply (perm_trans (l' := [1; 0; 2; 3])); [apply perm_swap|].
+  apply (perm_trans (l' := [1; 0; 3; 2])); [do 2 apply perm_skip; apply perm_swap|].
+  apply (perm_trans (l' := [1; 3; 0; 2])); [apply perm_skip, perm_swap|]. apply perm_swap.
+Qed.
+(* ... and of c12_numpy_threshold_composed on the reference file of ex_select_parent_k (its conclusion on
+   these values: ex_select_parent_k; the root has two pairs, thinned table free of both-ways genes) *)
+Example ex_threshold_composed_hypotheses :
+  NoDup (leaf_pairs ex_tree None) /\ leaf_pairs ex_tree None <> [] /\
+  no_gene_both_ways (marks_of (pair_tables (thin_genes ex_rm ex_query))).
+Proof.
+  split; [exact (proj1 (proj2 ex_downsample))|]. split; [vm_compute; discriminate|].
+  apply both_ways_free_sound. vm_compute. reflexivity.
+Qed.
+(* EXCLUDED input 1: gene 0 is down- AND up-marker of the only pair, n = 2 (the pair is desperate).
+   Model: `break` with gene 0 selected.  Real code (reproduced: 2 genes, one pair, down [0], up [0],
+   n_per_utility 2, genes_at_a_time 1): AssertionError raised by marker_mask_from_pair_idx, called from
+   _choose_desperate_markers.  The hypothesis no_gene_both_ways fails on it. *)
+Example ex_excluded_both_ways :
+  let pd := [([0], [0])] in
+  both_ways_free pd = false /\ ~ no_gene_both_ways (marks_of pd) /\
+  wres_chosen (select_with 2 [0] (marks_of pd) 2 (pick_pop ins_argsort)) = Some [0].
+Proof.
+  cbv zeta. split; [reflexivity|]. split; [|vm_compute; reflexivity].
+  intros H. specialize (H 0 0 eq_refl). vm_compute in H. discriminate.
+Qed.
+(* EXCLUDED input 2: taxonomy_idx_array = [].  Model: `break`, nothing selected.  Real code
+   (reproduced by calling _run_selection directly with an empty index array; the pipeline never does:
+   c12_parent_run_has_pairs_batch): ValueError "zero-size array to reduction operation minimum which has
+   no identity", raised by _stats_from_marker_counts AFTER the loop. *)
+Example ex_excluded_no_pairs :
+  wres_chosen (select_with 2 [] (marks_of [([0], [1])]) 2 (pick_pop ins_argsort)) = Some [].
+Proof. vm_compute. reflexivity. Qed.
+(* EXCLUDED input 3: genes_at_a_time = 0 (accepted by the schema: it is a plain argschema Int).  Model:
+   every pass of `while True` pops nothing, the state never changes, the fuel runs out.  Real code
+   (reproduced under a 5 s alarm: one pair, down [0;2], up [1;3], n_per_utility 1): still inside
+   _choose_gene / `while True` when the alarm fires; with genes_at_a_time = 1 the same call returns at
+   once.  OBSERVED by harness/props/c12_batch.py (distribution batch_k0_observed), outside the quantifier
+   of C12 (genes_at_a_time is a parameter of the run, the theorems say 1 <= k). *)
+Example ex_excluded_k0 :
+  select_with_k 4 [0] (marks_of [([0; 2], [1; 3])]) 1 0 (pick_pop ins_argsort) = WKOutOfFuel /\
+  (match select_with_k 4 [0] (marks_of [([0; 2], [1; 3])]) 1 1 (pick_pop ins_argsort) with
+   | WKDone st => Some (chosen st) | _ => None end) = Some [3; 2].
+Proof. vm_compute. split; reflexivity. Qed.
 (* end of BLOCK "audit 3, A10" *)
